@@ -175,15 +175,40 @@ def run_scenario(ctx, sc, acc):
                 installed = True
                 tokens = [b"<w%d>" % c for c in range(W)]
                 ds = []
-                for c in range(W):
-                    if sc["kind"] == "overwrite":
-                        ds.append(nodes[c].overwrite(MutableData(b"content of writer %d" % c)))
-                    else:
-                        ds.append(nodes[c].modify(lambda old, sm, first, _t=tokens[c]: old if _t in old else old + _t))
-                    for _ in range(sc["stagger"]):
-                        if not rt.step():
-                            break
                 outcomes = []
+                if sc.get("staged"):
+                    # a deterministic race: every writer surveys first (its own version object and servermap), then the
+                    # writers publish one after the other
+                    mvs = [rt.wait(nodes[c].get_best_mutable_version()) for c in range(W)]
+                    for c in range(W):
+                        for srv_, mode_ in sc.get("afail", {}).get(str(c), {}).items():
+                            def fault(methname, args, kwargs, _m=mode_):
+                                if methname != "slot_testv_and_readv_and_writev":
+                                    return None
+                                shs = sorted(args[2])
+                                return "error" if (_m == "all" or (shs and shs[0] < 2)) else None
+                            g.client_wrappers[(c, int(srv_))].fault = fault
+                        try:
+                            if sc["kind"] == "overwrite":
+                                rt.wait(mvs[c].overwrite(MutableData(b"content of writer %d" % c)))
+                            else:
+                                rt.wait(mvs[c].modify(lambda old, sm, first, _t=tokens[c]: old if _t in old else old + _t))
+                            outcomes.append("success")
+                        except grid.Stuck:
+                            outcomes.append("stuck")
+                        except Exception as e:
+                            outcomes.append(mc.exc_name(e))
+                        for srv_ in sc.get("afail", {}).get(str(c), {}):
+                            g.client_wrappers[(c, int(srv_))].fault = None
+                else:
+                    for c in range(W):
+                        if sc["kind"] == "overwrite":
+                            ds.append(nodes[c].overwrite(MutableData(b"content of writer %d" % c)))
+                        else:
+                            ds.append(nodes[c].modify(lambda old, sm, first, _t=tokens[c]: old if _t in old else old + _t))
+                        for _ in range(sc["stagger"]):
+                            if not rt.step():
+                                break
                 for d in ds:
                     try:
                         rt.wait(d)
@@ -300,7 +325,7 @@ def run_scenario(ctx, sc, acc):
                 ctx.case(("scenario", sc["kind"], sc["fmt"], k, n, W, tuple(outcomes), tuple(sorted(len(s) for s in by.values())))
                          if nrefused else None)
                 # ---- correspondence: replay the schedule through the model (overwrite scenarios: no retries/downloads)
-                if sc["kind"] == "overwrite" and "stuck" not in outcomes:
+                if sc["kind"] == "overwrite" and "stuck" not in outcomes and not sc.get("afail"):
                     wid = {}
                     decl = []
                     for r in rec.pubs:
@@ -346,6 +371,29 @@ def strip_flags(model_out):
 
 
 
+# fixed corpus of deterministic races (every writer surveys, then they publish in turn): one per known mechanism
+_ST = {"W": 2, "stagger": 0, "staged": True, "sched": 3}
+STAGED_CORPUS = [
+    # C12-a: a share is lost; both writers place it afresh on the same server, the second after the first (SDMF, MDMF)
+    dict(_ST, kind="overwrite", k=2, n=4, servers=4, fmt="s", initial="base", lose=[3]),
+    dict(_ST, kind="overwrite", k=2, n=4, servers=4, fmt="m", initial="base", lose=[3]),
+    # C12-c: the second writer loses every share: it must end in UncoordinatedWriteError (both formats)
+    dict(_ST, kind="overwrite", k=2, n=4, servers=4, fmt="m", initial="base"),
+    dict(_ST, kind="overwrite", k=2, n=4, servers=4, fmt="s", initial="base"),
+    # 3e3100d: modify() retried after UncoordinatedWriteError with its stale pinned version: empty file (a new
+    # directory) -> the first writer's edit vanished; non-empty file -> KeyError
+    dict(_ST, kind="modify", k=2, n=4, servers=4, fmt="s", initial=""),
+    dict(_ST, kind="modify", k=2, n=4, servers=4, fmt="s", initial="base"),
+    dict(_ST, kind="modify", k=2, n=4, servers=4, fmt="m", initial="base"),
+] + [
+    # C12-b: two shares per server (share i on server i mod 2); the first writer's requests for shares 0 and 1 on server 0
+    # and all its requests to server 1 fail, so the second writer wins share 0 on server 0 and loses share 2 there
+    # (several arrival orders: the refusal has to be processed before the acceptance)
+    dict(_ST, kind="overwrite", k=1, n=4, servers=2, fmt=f, initial="base", sched=sd, afail={"0": {"0": "low", "1": "all"}})
+    for sd in range(1, 7) for f in "sm"
+]
+
+
 def replay_case(replay):
     """the case of a replay file: a violation's case, or the case of the first recorded disagreement"""
     if replay.get("case"):
@@ -359,8 +407,11 @@ def run(ctx):
     if ctx.replay:
         scs = [replay_case(ctx.replay)["sc"]]
     else:
-        scs = [gen_scenario(ctx.rng, "overwrite") for _ in range(ctx.budget(90, 1500))]
-        scs += [gen_scenario(ctx.rng, "modify") for _ in range(ctx.budget(50, 800))]
+        import os
+        corpus_only = bool(os.environ.get("VERIF_CORPUS_ONLY"))
+        scs = [gen_scenario(ctx.rng, "overwrite") for _ in range(0 if corpus_only else ctx.budget(90, 1500))]
+        scs += [gen_scenario(ctx.rng, "modify") for _ in range(0 if corpus_only else ctx.budget(50, 800))]
+        scs = [dict(sc) for sc in STAGED_CORPUS] + scs
         # fixed corpus first: a fresh empty file (the state of a new directory) edited by two clients
         scs.insert(0, {"kind": "modify", "W": 2, "k": 2, "n": 4, "servers": 4, "fmt": "s", "sched": 19, "initial": "",
                        "stagger": 0})
